@@ -86,6 +86,10 @@ DumpOK(e, stored) ==
   /\ Chk("dump_count", Len(e.dump) = (IF stored THEN 1 ELSE 0) /\ e.other = 0)
   /\ Chk("dump_trace", ~Ingress => \A i \in DOMAIN e.dump : Pairs(e.dump[i].t) = J.mt)
   /\ Chk("sibling", SibOK(e, stored))
+  \* what the in-process consumer still held from its last dequeue did not move under the step in between
+  /\ Chk("held", e.held.n >= 1 => SamePL(e.held.pl) /\ Pairs(e.held.h) = J.exp)
+  \* the unrelated messages accepted so far are stored as they were sent (payload and maps), nothing else
+  /\ Chk("noise", e.noise = e.nwant)
   /\ Chk("dump_payload", \A i \in DOMAIN e.dump : SamePL(e.dump[i].pl))
   /\ Chk("dump_sensitive", Ingress => \A i \in DOMAIN e.dump : NoSens(e.dump[i].h) /\ e.dump[i].leak = <<>>)
   /\ Chk("dump_headers", \A i \in DOMAIN e.dump : Pairs(e.dump[i].h) = J.exp /\ NoDup(e.dump[i].h))
@@ -170,6 +174,12 @@ TraceLeaseOp ==
                  ELSE ms
   /\ UNCHANGED J
 
+\* unrelated traffic through the same instance leaves the message as it is (and is itself stored as sent)
+TraceOther ==
+  /\ IsEvent("Other")
+  /\ DumpOK(Trace[l], Kept)
+  /\ UNCHANGED <<J, ms>>
+
 \* extending a lease touches nothing else
 TraceExtend ==
   /\ IsEvent("Extend")
@@ -224,7 +234,7 @@ TraceScan ==
 
 Next ==
   \/ TraceStart \/ TraceSubmit \/ TraceDeq \/ TraceList \/ TracePush \/ TraceLeaseOp \/ TraceExpire
-  \/ TraceRequeue \/ TraceRestart \/ TraceStoreAlias \/ TraceScan \/ TraceExtend \/ TraceOperator
+  \/ TraceRequeue \/ TraceRestart \/ TraceStoreAlias \/ TraceScan \/ TraceExtend \/ TraceOperator \/ TraceOther
 
 Spec == Init /\ [][Next]_vars
 
